@@ -26,6 +26,7 @@ var noopPrefixes = []string{
 	"(*log.Logger).",
 	"os/signal.",
 	"internal/race.",
+	"reflect.TypeOf",
 	"internal/godebug.",
 	"(*internal/godebug.Setting).",
 }
